@@ -58,6 +58,8 @@ public:
 
   List& operator=(const List& other)
   {
+    if(this == &other)
+      return *this;
     clear();
     for(const Item* i = other._begin.item, * end = &other.endItem; i != end; i = i->next)
       append(i->value);
